@@ -43,12 +43,14 @@ RULE = ("fn: 1-4 sequential calls of the decorated _get_embeddings with 0-7 text
 TRUSTED_BASE = [
     "correspondence harness harness/props/C19.py (event-loop with virtual time, logging asyncio.Event subclass, logging overrides of _run_batch/_get_embeddings/_batch_get_embeddings that delegate to super()) + Lean driver Drive/C19.lean",
     "asyncio semantics: code between two suspension points is atomic; Event.wait() on a set event does not yield; Event.set() makes all waiters runnable (modelled, tied by replaying the recorded schedule)",
+    "multi-index cases: probe stores (key recording, sharing probes written after the run), the recording of begin/finish of every decorated _get_embeddings call, re-run of a failing case in a fresh process",
     "the stub embedding model is pointwise and deterministic (md5-derived vector), as the property's premise 'the vector the embedding model gives for that text' requires",
 ]
 ASSUMPTIONS = [
     "the key generator is injective on the texts in use (hypothesis InjOn; hash/MD5 collisions not modelled; kernel-checked counterexample cached_needs_injective_keys)",
     "the embedding model answers every call with one vector per document and does not raise; Redis store not exercised; request cancellation not modelled",
     "max_batch_size >= 1 for the progress theorems (with 0 the first request waits forever on a never-set event)",
+    "several indexes: NoForeignShare (two indexes using one store location never produce the same key for texts their models embed differently) is a hypothesis of cached_correct_multi; evaluated on the real store objects / real keys / model vectors of every multi-index case; it fails exactly in the region of the open finding shared-store-different-models (kernel-checked counterexample cached_multi_shared_store_as_is_counterexample)",
 ]
 EXHAUSTIVE = {"quick": False, "thorough": True}
 
@@ -309,8 +311,25 @@ def _setup():
             else:
                 SharedStore.slots[self.slot] = {}
 
+    class KeyProbeStore(CacheStore):
+        """records the keys the real wrapper derives (multi-index cases: the model's key table is read off the real code
+        path `cache_embeddings -> EmbeddingsCache.get -> key generator`, whatever goes into the key)"""
+        name = "verif_keyprobe"
+        log = []
+
+        def get(self, key):
+            KeyProbeStore.log.append(key)
+            return None
+
+        def set(self, key, value):
+            pass
+
+        def clear(self):
+            pass
+
+    globals()["KeyProbeStore"] = KeyProbeStore
     globals()["SharedStore"] = SharedStore
-    globals()["_KEEP"] = (HexKeyGenerator, SharedStore, TEvent, Shim)  # __subclasses__() holds weak references only
+    globals()["_KEEP"] = (HexKeyGenerator, SharedStore, KeyProbeStore, TEvent, Shim)  # __subclasses__() holds weak references only
     TIndex, Stub = _TIndex, _Stub
     logging.getLogger("nemoguardrails.embeddings.cache").setLevel(logging.ERROR)
     logging.getLogger("asyncio").setLevel(logging.CRITICAL)
@@ -733,6 +752,29 @@ def _m_ops(case):
             k += 1
 
 
+def _m_real_keys(sp, texts):
+    """[[text, key]]: the key under which an index with this model / key generator files `text`, observed on the real
+    wrapper (a probe index with the same model and key generator whose store only records the keys it is asked for)"""
+    if sp["cache"]["store"] == "off":
+        return [[t, "off:" + t] for t in texts]
+    kg = _keygen(sp["cache"]["keygen"])
+    probe = TIndex(embedding_model=sp["model"], embedding_engine="verif_stub2",
+                   cache_config={"enabled": True, "store": "verif_keyprobe", "key_generator": sp["cache"]["keygen"], "store_config": {}})
+    out = []
+    for t in texts:
+        KeyProbeStore.log = []
+        coro = probe._get_embeddings([t])
+        try:
+            coro.send(None)
+            coro.close()
+        except StopIteration:
+            pass
+        except Exception:  # noqa
+            pass
+        out.append([t, KeyProbeStore.log[0] if KeyProbeStore.log else kg.generate_key(t)])
+    return out
+
+
 def _run_multi(case, tmpdir):
     global _MSTEPS, _MREC
     from nemoguardrails.embeddings.cache import EmbeddingsCache
@@ -747,14 +789,13 @@ def _run_multi(case, tmpdir):
         pass
     SharedStore.slots = {}
     _MLATS.clear()
-    for sp in specs:
-        _MLATS.setdefault(sp["model"], {"lats": sp.get("lats") or [None], "calls": []})
     texts = _m_texts(case)
     obs = {"keys": [], "vecs": []}
     for sp in specs:
-        kg = _keygen(sp["cache"]["keygen"]) if sp["cache"]["store"] != "off" else None
-        obs["keys"].append([[t, kg.generate_key(t)] for t in texts] if kg else [[t, "off:" + t] for t in texts])
+        obs["keys"].append(_m_real_keys(sp, texts))
         obs["vecs"].append([[t, venc(mvec(sp["model"], t))] for t in texts])
+    for sp in specs:
+        _MLATS.setdefault(sp["model"], {"lats": sp.get("lats") or [None], "calls": []})
 
     def make(i):
         sp = specs[i]
@@ -942,6 +983,29 @@ def _m_foreign(case, i):
             and _m_loc(specs[j], j) == _m_loc(specs[i], i) and specs[j]["cache"]["keygen"] == specs[i]["cache"]["keygen"]]
 
 
+def _m_hyp(case, obs):
+    """`NoForeignShare` (hypothesis of cached_correct_multi) evaluated on the REAL objects of the case: for every two
+    configurations whose real store objects see each other's entries, equal real keys imply equal model vectors"""
+    sh = obs.get("shares")
+    if not isinstance(sh, list):
+        return None
+    n = len(case["indexes"])
+    for i in range(n):
+        for j in range(n):
+            if not (sh[i][j] or sh[j][i]):
+                continue
+            vj = dict(map(tuple, obs["vecs"][j]))
+            kj = {}
+            for t, k in obs["keys"][j]:
+                kj.setdefault(k, []).append(t)
+            vi = dict(map(tuple, obs["vecs"][i]))
+            for t, k in obs["keys"][i]:
+                for t2 in kj.get(k, []):
+                    if vi[t] != vj[t2]:
+                        return False
+    return True
+
+
 def _m_oracle(case, obs):
     specs = case["indexes"]
     first_known = None
@@ -1033,6 +1097,17 @@ def _m_compare(case, obs, mouts):
         for l, st in obs["stores"].items():
             if st != ms.get(l, []):
                 return f"final store at location {l} differs: impl {st} model (mstep) {ms.get(l, [])}"
+    if _m_hyp(case, obs) is True:
+        # cached_correct_multi applies (its hypotheses hold of the real objects): every replayed call must have returned the
+        # calling index's own vectors in the model - a disagreement here is a proof/model problem, not an implementation one
+        vt = [dict(map(tuple, v)) for v in obs["vecs"]]
+        calls = [e for e in obs.get("calls", []) if e[0] == "begin"]
+        texts_of = {e[1]: (e[2], e[3]) for e in calls}
+        fin = [e for e in obs.get("calls", []) if e[0] == "finish"]
+        for (mi, mv), e in zip(r["returned"], fin):
+            sx, tx = texts_of[e[1]]
+            if 0 <= sx < len(vt) and mv != [vt[sx].get(t) for t in tx]:
+                return f"theorem cached_correct_multi contradicted by the model run: call of index {sx} on {tx} returned {mv}"
     if len(mouts) < 2:
         return None
     # (2) all-sequential cases additionally as whole calls (Embed.multiCalls)
@@ -1068,6 +1143,7 @@ def _m_tags(case, obs):
          "dims:%d" % len(set(sp["model"].rsplit(".", 1)[1] for sp in specs))]
     for st in sorted(set(sp["cache"]["store"] for sp in specs)):
         t.append("mcache:" + st)
+    t.append("hyp:NoForeignShare-on-real-objects:" + {True: "holds", False: "fails", None: "unknown"}[_m_hyp(case, obs)])
     if any(_m_foreign(case, i) for i in range(len(specs))):
         t.append("hyp:store-shared-by-different-models")
     elif any(any(r[j] for j in range(len(r)) if j != i) for i, r in enumerate(_m_declared_shares(case))):
